@@ -5,6 +5,8 @@
 #include <yaclib/async/future.hpp>
 #include <yaclib/async/make.hpp>
 #include <yaclib/async/run.hpp>
+#include <yaclib/async/shared_contract.hpp>
+#include <yaclib/async/shared_future.hpp>
 #include <yaclib/exe/inline.hpp>
 #include <yaclib/exe/manual.hpp>
 #include <yaclib/lazy/make.hpp>
@@ -113,6 +115,22 @@ int main() {
     c = 0;
     o = Read(yaclib::MakeFuture(1).Then(yaclib::MakeInline(yaclib::StopTag{}), [&](int x) { ++c; return x; }).ThenInline([&](std::exception_ptr) { return 5; }).ThenInline([&](StopError) { return 6; }).Get());
     Expect("stopped executor | [](int) | [](exception_ptr) | [](StopError)", o, ResultState::Value, 6, "", c, 0);
+  }
+  // a SharedFuture returned from a callback is flattened by COPY: later observers of the same SharedFuture still see the value (C06: never moved while shared)
+  {
+    auto [sf, sp] = yaclib::MakeSharedContract<std::string>();
+    std::move(sp).Set(std::string(64, 'x'));
+    auto a = yaclib::MakeFuture(1).ThenInline([sf = sf](int) { return sf; }).Get();
+    auto b = yaclib::MakeFuture(2).ThenInline([sf = sf](int) { return sf; }).Get();
+    auto c = sf.Get();
+    bool ok = a.State() == ResultState::Value && b.State() == ResultState::Value && c.State() == ResultState::Value && std::move(a).Value().size() == 64 && std::move(b).Value().size() == 64 && std::move(c).Value().size() == 64;
+    if (!ok) { std::fprintf(stderr, "DIFF returned SharedFuture<string>: a later observer saw a moved-from value\n"); ++g_bad; }
+    // ... and a step attached to a SharedFuture reads it by const reference
+    auto [sf2, sp2] = yaclib::MakeSharedContract<std::string>();
+    auto d = sf2.ThenInline([](const std::string& v) { return v.size(); });
+    auto e2 = sf2.ThenInline([](const std::string& v) { return v.size(); });
+    std::move(sp2).Set(std::string(48, 'y'));
+    if (std::move(d).Get().Ok() != 48 || std::move(e2).Get().Ok() != 48 || sf2.Get().Ok().size() != 48) { std::fprintf(stderr, "DIFF SharedFuture<string>.ThenInline x2: value consumed by an observer\n"); ++g_bad; }
   }
   (void)nothing;
   std::fprintf(stderr, "pipeline: %d differences\n", g_bad);
